@@ -54,6 +54,17 @@ Definition level_cleanup (sub ts : qtypes) : option qtypes :=
   else if cls_eqb s1 CX87up && negb (cls_eqb s0 CX87) then None
   else Some (get_result_type s0 (fst ts), get_result_type s1 (snd ts)).
 
+(* a bit-field (repaired code, /repo 21222098 = fixes/C08-9):
+     for (qword = bit / 64; qword <= (bit + width - 1) / 64 && qword < MAX_QWORDS; qword++)
+       subtypes[qword] = get_result_type (MIR_T_I64, subtypes[qword]);
+   a bit-field is at most 64 bits wide, so the loop runs once or twice; [qset] ignores an index >= 2
+   as the loop bound does *)
+Definition qmerge_span (bit w : Z) (ts : qtypes) : qtypes :=
+  let q0 := bit / 64 in
+  let q1 := (bit + w - 1) / 64 in
+  let t1 := qmerge q0 CInt ts in
+  if q1 =? q0 then t1 else qmerge q1 CInt t1.
+
 (* the member loop of one struct/union level (rec = classify_fields itself) *)
 Definition cf_members (rec : ty -> Z -> qtypes -> option qtypes) (offset : Z) :=
   fix go (ms : list (mkind * ty)) (rs : list mrec) (sub : qtypes) : option qtypes :=
@@ -66,7 +77,7 @@ Definition cf_members (rec : ty -> Z -> qtypes -> option qtypes) (offset : Z) :=
           | Some sub' => go ms' rs' sub'
           end
         else if m_width r =? 0 then go ms' rs' sub
-        else go ms' rs' (qmerge ((member_offset * 8 + m_bit r) / 64) CInt sub)
+        else go ms' rs' (qmerge_span (member_offset * 8 + m_bit r) (m_width r) sub)
     | _, _ => Some sub
     end.
 
